@@ -259,6 +259,34 @@ impl C03 {
                     }
                 }
             }
+            // Iterator::sum is repeated addition: the same name-keyed result whatever the layouts of its items
+            {
+                let can_sum = apply(Op::Add, &can_a, &can_b);
+                if let Ok(can_map) = can_sum.to_rnum() {
+                    for (mode, a, b) in variants.iter() {
+                        let rel = T::relationship(a, b);
+                        for (order_name, items) in [("a,b", vec![a.clone(), b.clone()]), ("b,a", vec![b.clone(), a.clone()])] {
+                            let res = T::sum(items);
+                            ctx.eval(1);
+                            ctx.asserted(2);
+                            ctx.class(&format!("sum:{}:{}", tname, rel_name(&rel)));
+                            let want: BTreeSet<String> = a.var_names().into_iter().chain(b.var_names()).collect();
+                            let rv = res.var_names();
+                            let got: BTreeSet<String> = rv.iter().cloned().collect();
+                            let ok = match res.to_rnum() {
+                                Ok(m) => maps_close(&m, &can_map, second, 4) && got == want && got.len() == rv.len(),
+                                Err(_) => false,
+                            };
+                            if !ok {
+                                ctx.violation(
+                                    &format!("C03|sum-layout-dependence|{}|{}", tname, rel_name(&rel)),
+                                    json!({"type": tname, "mode": mode, "relationship": rel_name(&rel), "items_in_order": order_name, "a": a.describe(), "b": b.describe(), "sum": res.describe(), "canonical a+b": can_sum.describe()}),
+                                );
+                            }
+                        }
+                    }
+                }
+            }
             for op in OPS {
                 if op == Op::Rem {
                     let q = ca.v / cb.v;
@@ -467,6 +495,11 @@ impl Prop for C03 {
         for t in ["Dual", "Dual2"] {
             for rel in ["ArcEquivalent", "ValueEquivalent", "Superset", "Subset", "Difference"] {
                 v.push(format!("align:to_union_vars:{}:{}", t, rel));
+            }
+        }
+        for t in ["Dual", "Dual2"] {
+            for rel in ["ArcEquivalent", "ValueEquivalent", "Superset", "Subset", "Difference"] {
+                v.push(format!("sum:{}:{}", t, rel));
             }
         }
         v
